@@ -781,6 +781,16 @@ fn run_registry(plan: &Plan, lib: &dyn Lib, rec: &mut Rec) {
             rec.expect("C09", "altered-pop-rejected", !out.is_ok(), || format!("perturbed {} key_class={} g={} | altered proof accepted", label, class, g.name()));
         }
     }
+    // the same key's ordinary signatures over its own public-key bytes (each scheme) are other points: not proofs
+    for s in 0u8..3 {
+        if let Some(sg) = rec.call(lib, g, Op::Sign, &[&p.sk, &[s], &p.pk]).first().map(|v| v.to_vec()) {
+            rec.fault("byz-signature-as-proof");
+            let out = rec.call(lib, g, Op::PopVerify, &[&sg[1..], &p.pk]);
+            let exp = expected(&p.pk, &sg[1..]);
+            rec.case(&[9, g as u64, *class, s as u64, 96], true);
+            rec.expect("C09", "accepted-iff-made-by-that-key", out.is_ok() == exp, || format!("own-{}-signature-over-pk key_class={} g={} | registry says {}, sk*H(pk) check says {}", scheme_name(s), class, g.name(), out.kind(), exp));
+        }
+    }
     // the honest proof plus a point of small order (T = r*Q): other bytes, same pairing value — a decoder that
     // skips the subgroup check lets it through
     for k in 0..3u64 {
